@@ -243,6 +243,14 @@ impl verif::Hooks for InlineHooks {
             "receiver_drop" => w(sh, |w| {
                 w.open = false;
             }),
+            // an acquisition no hook line announces (added since the sites were instrumented): when it is the receiver
+            // that takes it, senders may run right before it, as before every other critical section of the receiver
+            "unannounced_lock" => {
+                if w(sh, |w| w.rx_on_stack) {
+                    w(sh, |w| w.out.probe("receiver_took_an_unannounced_lock"));
+                    interleave(sh, "unannounced_lock");
+                }
+            }
             _ => {}
         }
     }
@@ -1057,6 +1065,7 @@ fn interleave(sh: &ShRef, point: &'static str) {
                     "in_wait" => "sender_op_during_receiver_wait",
                     "in_watcher" => "sender_op_inside_watcher_callback",
                     "in_sampler" => "sender_op_inside_metrics_sampler",
+                    "unannounced_lock" => "sender_op_right_before_an_unannounced_lock",
                     _ => "sender_op_nested",
                 });
             });
